@@ -31,6 +31,12 @@ carquet_status_t carquet_lz4_decompress(const uint8_t*, size_t, uint8_t*, size_t
 int carquet_gzip_decompress(const uint8_t*, size_t, uint8_t*, size_t, size_t*);
 int carquet_zstd_decompress(const uint8_t*, size_t, uint8_t*, size_t, size_t*);
 
+#if MODE == 10
+/* BYTE_STREAM_SPLIT goes through the runtime dispatcher: detection sees a CPU without SIMD extensions here, so the
+ * scalar kernels run (the SIMD variants and the dispatcher's choice are the subject of C15) */
+unsigned verif_cpuid_reg(unsigned leaf, unsigned subleaf, int reg) { (void)leaf; (void)subleaf; (void)reg; return 0; }
+unsigned long long verif_xgetbv(unsigned x) { (void)x; return 0; }
+#endif
 #ifndef L
 #define L 4
 #endif
